@@ -2,6 +2,7 @@
 C11  A successful sync captures every change and converges.
 -/
 import SnapraidVerif.Array.Scan
+import SnapraidVerif.Array.ScanSeq
 namespace SnapraidVerif.Props.C11
 open Scan
 
@@ -77,5 +78,38 @@ theorem diff_silent_when_equal (useInode : Bool) (known copySrc : List FileId)
     have : known.any (fun p => p.path == k.path) = true := List.any_eq_true.mpr ⟨k, hk, by simp⟩
     simp [this]
   simp [h1, h2]
+
+/-! ### the sequential scan (entries consumed in walk order, as scan.c does) -/
+
+open ScanSeq in
+/-- for every walk order and every recorded state: (1) no recorded file's blocks are kept by two
+    present files, and (2) a present file is trusted (equal / moved / restored: hashes and parity
+    kept without reading) only as the heir of a recorded file with exactly its size and
+    time-stamp -/
+theorem seq_scan_sound (useInode : Bool) (other : List FileId) (known : List (FileId × Bool)) (ps : List FileId) :
+    (keepsOf (scanAll useInode other (initSt useInode known) ps).2).Nodup ∧
+    ∀ x, x ∈ ps.zip (scanAll useInode other (initSt useInode known) ps).2 → x.2.cls.trusted = true →
+      ∃ i f h, known[i]? = some (f, h) ∧ x.2.keeps = some i ∧ stampOf f = stampOf x.1 := by
+  obtain ⟨_, _, _, hnd, _, htr⟩ := scanAll_spec useInode other ps (initSt useInode known)
+  refine ⟨hnd, ?_⟩
+  intro x hx ht
+  obtain ⟨i, hk, hin, hst⟩ := htr x hx ht
+  have hlen : i < known.length := hin
+  obtain ⟨f, h⟩ := known[i]
+  have hget : known[i]? = some (known[i]) := List.getElem?_eq_getElem hlen
+  refine ⟨i, (known[i]).1, (known[i]).2, by rw [hget], hk, ?_⟩
+  have := (initSt_e useInode known i (known[i]).1 (known[i]).2 (by rw [hget])).1
+  rw [← this]; exact hst
+
+open ScanSeq in
+/-- a file whose size or time-stamp matches no recorded file of its disk is never trusted, in any walk order -/
+theorem seq_changed_is_reread (useInode : Bool) (other : List FileId) (known : List (FileId × Bool)) (ps : List FileId)
+    (x : FileId × Out) (hx : x ∈ ps.zip (scanAll useInode other (initSt useInode known) ps).2)
+    (hno : ∀ k, k ∈ known → stampOf k.1 ≠ stampOf x.1) : x.2.cls.trusted = false := by
+  cases ht : x.2.cls.trusted with
+  | false => rfl
+  | true =>
+    obtain ⟨i, f, h, hk, _, hs⟩ := (seq_scan_sound useInode other known ps).2 x hx ht
+    exact absurd hs (hno (f, h) (List.mem_of_getElem? hk))
 
 end SnapraidVerif.Props.C11
